@@ -142,8 +142,50 @@ def check(ctx, rep):
              'slot\'s lock; resolve delivers, takes and wakes under it)', floor=8)
     c05.check_pending_wakers(rep, 'R02.g', core, None, only=lambda f: 'capability::shell_request::' in f.npath or 'capability::shell_stream::' in f.npath, floor=2)
     c05.check_legacy_futures(rep, 'R02.g', 'R02.g', core)
+    check_registry_miss(rep, core)
     rep.assume('futures::channel::mpsc::unbounded and crux_core::capability::channel return two halves of one fresh FIFO channel')
     rep.assume('Request<Op> cannot be cloned and its resolve field is crate-private (rustc; pinned by witnesses W02.1-3 in the thorough tier)')
+
+
+def check_registry_miss(rep, core):
+    """R02.h: on the serialised path a resolution addressed to an id with no entry (a one-shot already resolved and removed) is
+    rejected with an error value: the None edge of the registry lookup in ResolveRegistry::resume reaches the return with an Err and
+    cannot reach a panic"""
+    rep.rule('R02.h', 'a serialised resolution addressed to no outstanding request is rejected with an error value, not a panic', floor=2)
+    from rules.common import panic_sites
+    fs = find_method(core, 'crux_core::bridge::registry::ResolveRegistry', 'resume')
+    if len(fs) != 1:
+        rep.missing('R02.h', 'ResolveRegistry::resume')
+        return
+    f = fs[0]
+    looks = [(bb, t) for bb, t in f.calls('slab::Slab::get_mut', 'slab::Slab::get', 'slab::Slab::contains', 'slab::Slab::try_remove')]
+    if not looks:
+        rep.missing('R02.h', 'registry lookup in ResolveRegistry::resume')
+        return
+    panics = [bb for bb, kind, detail, t in panic_sites(f) if not (kind == 'expect' and 'PoisonError' in ((t['args'][0].get('t') if t['args'] else '') or ''))]
+    miss_edges = []
+    for sb, st in f.terms('switch'):
+        for o in origins(f, st['a']):
+            if o.kind == 'rvalue' and o.stmt['rv']['k'] == 'discr':
+                src = origins(f, o.stmt['rv']['a'])
+                if any(x.kind == 'call' and x.bb in [b for b, t in looks] and not x.suffix for x in src):
+                    none = [b for v, b in st['arms'] if v == 0]
+                    miss_edges += [(sb, b) for b in none] or [(sb, st['otherwise'])]
+            if o.kind == 'call' and o.bb in [b for b, t in looks] and 'contains' in last_seg(o.term.get('callee') or ''):
+                miss_edges += [(sb, b) for v, b in st['arms'] if v == 0]
+    if not miss_edges:
+        rep.bad('R02.h', 'resume|miss-edge', 'ResolveRegistry::resume: no branch on the result of the registry lookup found')
+        return
+    reach = set()
+    for sb, b in miss_edges:
+        reach |= f.reachable([b])
+    rep.expect('R02.h', not any(p in reach for p in panics), 'resume|miss-no-panic', 'the not-found edge reaches no panic',
+               'ResolveRegistry::resume panics when no request is outstanding under the id (a second resolution of a one-shot over the bridge)')
+    errs = [bb for bb, i, s in f.stmts('assign') if s['rv']['k'] == 'agg' and s['rv'].get('variant') == 'Err' and path_matches(s['rv'].get('adt'), 'core::result::Result')]
+    rets = f.return_blocks()
+    ok = bool(errs) and all(b in errs or not any(r in f.reachable([b], removed_blocks=errs) for r in rets) for sb, b in miss_edges)
+    rep.expect('R02.h', ok, 'resume|miss-returns-err', 'every path from the not-found edge to the return constructs an Err',
+               'ResolveRegistry::resume can return without an error when no request is outstanding under the id')
 
 
 def check_core_resolve(rep, core):
